@@ -170,17 +170,18 @@ def run_seq(acc, rnd, nops, cid, filename):
                          if not ((k[0] == D.INBOUND.value and k[1] >= eff_in) or (k[0] == D.OUTBOUND.value and k[1] >= eff_out))}
         elif op in ("recover", "recover1"):
             d = rnd.choice([D.INBOUND, D.OUTBOUND])
-            lo = rnd.choice([0, 1, 2, 5, 10, -3, 2 ** 40])
-            hi = rnd.choice([0, 1, 4, 9, sys.maxsize, 2 ** 63 - 1, lo])
+            lo = rnd.choice([0, 1, 2, 5, 7, 9, 10, 95, -3, 2 ** 40])
+            hi = rnd.choice([0, 1, 4, 9, 10, 15, 105, 1000, sys.maxsize, 2 ** 63 - 1, lo])
             if op == "recover1":
                 hi = lo
-            typed = rnd.random() < 0.15
+            typed = rnd.random() < 0.25
+            mixed = typed and rnd.random() < 0.3        # one bound a string (as it comes out of a FIX tag), the other an int
             try:
                 if op == "recover1" and not typed:
                     g = j.recover_msg(s, d, lo)
                     got = [] if g is None else [g]
                 else:
-                    got = j.recover_messages(s, d, str(lo) if typed else lo, str(hi) if typed else hi)
+                    got = j.recover_messages(s, d, str(lo) if typed else lo, (hi if mixed else str(hi)) if typed else hi)
             except Exception as e:
                 V("recover-raised", f"{type(e).__name__}: {e}")
                 continue
